@@ -152,6 +152,69 @@ fn check_leap(secs: i64, nanos: u32, off: i32, acc: &mut Acc) {
     }
 }
 
+/// A zone with one offset transition (like Europe/Berlin on 2021-10-31: +02:00 before 01:00 UTC, +01:00 from then on),
+/// so that local times in the repeated hour are ambiguous; and its mirror image with a skipped hour.
+#[derive(Clone, Copy, Debug)]
+struct Transition {
+    at: i64,
+    before: i32,
+    after: i32,
+}
+
+impl rpm::chrono::TimeZone for Transition {
+    type Offset = FixedOffset;
+    fn from_offset(_: &FixedOffset) -> Self {
+        Transition { at: 1_635_642_000, before: 7200, after: 3600 }
+    }
+    fn offset_from_local_date(&self, d: &rpm::chrono::NaiveDate) -> rpm::chrono::LocalResult<FixedOffset> {
+        self.offset_from_local_datetime(&d.and_hms_opt(12, 0, 0).expect("noon"))
+    }
+    fn offset_from_local_datetime(&self, l: &rpm::chrono::NaiveDateTime) -> rpm::chrono::LocalResult<FixedOffset> {
+        let s = l.and_utc().timestamp();
+        let in_before = s < self.at + self.before as i64;
+        let in_after = s >= self.at + self.after as i64;
+        let east = |x: i32| FixedOffset::east_opt(x).expect("offset");
+        match (in_before, in_after) {
+            (true, true) => rpm::chrono::LocalResult::Ambiguous(east(self.before), east(self.after)),
+            (true, false) => rpm::chrono::LocalResult::Single(east(self.before)),
+            (false, true) => rpm::chrono::LocalResult::Single(east(self.after)),
+            (false, false) => rpm::chrono::LocalResult::None,
+        }
+    }
+    fn offset_from_utc_date(&self, d: &rpm::chrono::NaiveDate) -> FixedOffset {
+        self.offset_from_utc_datetime(&d.and_hms_opt(12, 0, 0).expect("noon"))
+    }
+    fn offset_from_utc_datetime(&self, u: &rpm::chrono::NaiveDateTime) -> FixedOffset {
+        FixedOffset::east_opt(if u.and_utc().timestamp() < self.at { self.before } else { self.after }).expect("offset")
+    }
+}
+
+fn check_transition_zone(acc: &mut Acc) {
+    use rpm::chrono::TimeZone;
+    for (name, zone) in [("clocks set back (an hour of local time occurs twice)", Transition { at: 1_635_642_000, before: 7200, after: 3600 }), ("clocks set forward (an hour of local time is skipped)", Transition { at: 1_616_893_200, before: 3600, after: 7200 })] {
+        for secs in zone.at - 7300..=zone.at + 7300 {
+            for nanos in [0u32, 1, 999_999_999] {
+                acc.evals += 1;
+                let Some(dt) = zone.timestamp_opt(secs, nanos).single() else {
+                    acc.count("unrepresentable");
+                    continue;
+                };
+                let case = json!({"kind": "chrono-transition-zone", "zone": name, "secs": secs, "nanos": nanos});
+                match catch(|| Timestamp::try_from(dt)) {
+                    Err(p) => acc.viol(panic_violation("chrono", &p, case)),
+                    Ok(got) => {
+                        acc.nontrivial += 1;
+                        if got.map(|t| t.0) != Ok(secs as u32) {
+                            acc.viol(Violation::new("chrono", format!("{}: {}s+{}ns converts to {:?}", name, secs, nanos, got), case).sig("clause", "exact"));
+                        }
+                    }
+                }
+            }
+        }
+        acc.count(name);
+    }
+}
+
 const W: i64 = 4096;
 
 fn window_secs() -> Vec<i64> {
@@ -261,7 +324,7 @@ pub fn run(ctx: &Ctx) -> i32 {
     let mut subs = vec![SubReport::new(
         "systemtime-windows",
         "A",
-        "every whole second in ±4096 s around 0, 2^31, 2^32 × sub-second ∈ {0, 1 ns, 0.5 s, 999 999 999 ns} plus extremes; oracle = floor seconds / Underflow / Overflow; non-trivial = instant inside 0..2^32",
+        "every whole second in ±4096 s around 0, 2^31, 2^32 × sub-second ∈ {0, 1 ns, 0.5 s, 999 999 999 ns}, plus extremes, a logarithmic grid ±(m·2^p + d) s for every p < 63, m ∈ {1,3,5,7}, d ∈ {−1,0,1}, and the instants at which a count of milli- / micro- / nanoseconds passes a multiple of 2^63; oracle = floor seconds / Underflow / Overflow; non-trivial = instant inside 0..2^32",
         a,
     )
     .not_exhaustive()];
@@ -269,6 +332,33 @@ pub fn run(ctx: &Ctx) -> i32 {
     let mut ex = Acc::new();
     for (s, n) in [(i64::MAX, 999_999_999u32), (i64::MIN, 0), (i64::MIN + 1, 0)] {
         check_systime(s, n, &mut ex);
+    }
+    // the far future and the far past on a logarithmic grid: ±(2^p + d) and ±(3·2^p), ±(5·2^p) seconds for every p
+    // (conversions that go through milliseconds, microseconds, nanoseconds or floating point wrap or round somewhere on it)
+    for p in 0..63u32 {
+        for m in [1i64, 3, 5, 7] {
+            for d in [-1i64, 0, 1] {
+                let Some(v) = (1i64 << p).checked_mul(m).and_then(|x| x.checked_add(d)) else { continue };
+                for n in [0u32, 999_999_999] {
+                    check_systime(v, n, &mut ex);
+                    check_systime(-v, n, &mut ex);
+                }
+            }
+        }
+    }
+    // multiples of 2^64 and 2^63 sub-second units expressed in seconds (where counts of ms / µs / ns wrap)
+    for unit in [1_000u128, 1_000_000, 1_000_000_000] {
+        for k in 1..=6u128 {
+            for half in [0u128, 1] {
+                let total_units = k * (1u128 << 64) + half * (1u128 << 63);
+                let secs = (total_units / unit) as i64;
+                for d in [-1i64, 0, 1, 2] {
+                    for n in [0u32, 1, 999_999_999] {
+                        check_systime(secs.saturating_add(d), n, &mut ex);
+                    }
+                }
+            }
+        }
     }
     subs[0].acc.merge(ex);
 
@@ -287,7 +377,7 @@ pub fn run(ctx: &Ctx) -> i32 {
     let mut cs = SubReport::new(
         "chrono-windows",
         "A",
-        "same windows × fixed offsets {−12 h, −1 s, 0, +5:45, +14 h}, plus MIN_UTC/MAX_UTC in each zone; every minute-ending second of the windows also in chrono's leap-second representation (nanosecond field 10^9 … 2·10^9−1): ordering clauses only",
+        "same windows × fixed offsets {−12 h, −1 s, 0, +5:45, +14 h}, plus MIN_UTC/MAX_UTC in each zone; every second within ±7300 s of the offset transition of two hand-written zones (one where an hour of local time occurs twice, one where an hour is skipped); every minute-ending second of the windows also in chrono's leap-second representation (nanosecond field 10^9 … 2·10^9−1): ordering clauses only",
         c,
     )
     .not_exhaustive();
@@ -309,6 +399,11 @@ pub fn run(ctx: &Ctx) -> i32 {
                 }
             }
         }
+        cs.acc.merge(acc);
+    }
+    {
+        let mut acc = Acc::new();
+        check_transition_zone(&mut acc);
         cs.acc.merge(acc);
     }
     subs.push(cs);
